@@ -32,6 +32,10 @@ MALFORMED = [
  ('nr-not-a-number', model({('Tabulation', 'nr'): 'twelve'})),
  ('cutoff-not-a-number', model({('Tabulation', 'cutoff'): '5,5'})),
  ('nr-one', model({('Tabulation', 'nr'): '1'})),
+ ('nr-two-lammps', model({('Tabulation', 'target'): 'LAMMPS', ('Tabulation', 'nr'): '2'})),
+ ('nr-four-dlpoly', model({('Tabulation', 'target'): 'DL_POLY', ('Tabulation', 'nr'): '4'})),
+ ('nrho-one', EAM.replace('nrho : 5', 'nrho : 1')),
+ ('step-larger-than-cutoff', '[Tabulation]\ntarget : GULP\ndr : 9.5\ncutoff : 5.5\n\n[Pair]\nO-O : as.buck 1000.0 0.3 32.0\n'),
  ('all-three-grid-options', model({('Tabulation', 'dr'): '0.5'})),
  ('negative-cutoff', model({('Tabulation', 'cutoff'): '-5.5'})),
  ('dlpoly-rows-not-multiple-of-4', model({('Tabulation', 'target'): 'DL_POLY', ('Tabulation', 'nr'): '13'})),
